@@ -19,9 +19,17 @@ import (
 
 const (
 	verifDir = "/verif"
-	repoDir  = "/repo"
 	goBin    = "go1.26.8"
 )
+
+// repoDir is the tree the checks are built from: /repo unless VERIF_REPO names a scratch
+// worktree (used only to try deliberate breakages without touching /repo).
+var repoDir = func() string {
+	if r := os.Getenv("VERIF_REPO"); r != "" {
+		return r
+	}
+	return "/repo"
+}()
 
 type tierInt struct {
 	Quick    int `json:"quick"`
@@ -117,25 +125,26 @@ func cmdCheck(args []string) int {
 		seed = s
 	}
 	start := time.Now()
-	b, err := os.ReadFile(filepath.Join(verifDir, "checks.json"))
+	b, err := os.ReadFile(filepath.Join(verifDir, "checks", id+".json"))
 	if err != nil {
-		fmt.Fprintln(os.Stderr, "vt:", err)
+		fmt.Fprintln(os.Stderr, "vt: unknown check:", err)
 		return 2
 	}
-	all := map[string]checkSpec{}
-	if err := json.Unmarshal(b, &all); err != nil {
-		fmt.Fprintln(os.Stderr, "vt: checks.json:", err)
-		return 2
-	}
-	spec, ok := all[id]
-	if !ok {
-		fmt.Fprintln(os.Stderr, "vt: unknown check", id)
+	var spec checkSpec
+	if err := json.Unmarshal(b, &spec); err != nil {
+		fmt.Fprintln(os.Stderr, "vt: checks/"+id+".json:", err)
 		return 2
 	}
 	work := filepath.Join(verifDir, ".work", id)
+	evDir := filepath.Join(verifDir, "evidence")
+	if repoDir != "/repo" {
+		h := sha256.Sum256([]byte(repoDir))
+		work = filepath.Join(verifDir, ".work", id+"-"+hex.EncodeToString(h[:4]))
+		evDir = filepath.Join(work, "evidence") // a scratch tree never overwrites the real evidence
+	}
 	os.MkdirAll(work, 0o755)
 	os.MkdirAll(filepath.Join(verifDir, ".cache", "tmp"), 0o755)
-	os.MkdirAll(filepath.Join(verifDir, "evidence"), 0o755)
+	os.MkdirAll(evDir, 0o755)
 
 	var replaySpec struct {
 		Property string          `json:"property"`
@@ -410,7 +419,11 @@ func cmdCheck(args []string) int {
 		}
 		nviol++
 		h := sha256.Sum256([]byte(v.Key))
-		rp := filepath.Join(verifDir, "replays", id, hex.EncodeToString(h[:6])+".json")
+		rpDir := filepath.Join(verifDir, "replays", id)
+		if repoDir != "/repo" {
+			rpDir = filepath.Join(work, "replays")
+		}
+		rp := filepath.Join(rpDir, hex.EncodeToString(h[:6])+".json")
 		os.MkdirAll(filepath.Dir(rp), 0o755)
 		rb, _ := json.MarshalIndent(map[string]any{"property": id, "step": v.Step, "key": v.Key, "msg": v.Msg, "replay": v.Replay}, "", " ")
 		os.WriteFile(rp, rb, 0o644)
@@ -433,7 +446,7 @@ func cmdCheck(args []string) int {
 	}
 	if replay == "" {
 		eb, _ := json.MarshalIndent(ev, "", " ")
-		os.WriteFile(filepath.Join(verifDir, "evidence", id+".json"), append(eb, '\n'), 0o644)
+		os.WriteFile(filepath.Join(evDir, id+".json"), append(eb, '\n'), 0o644)
 	}
 	if len(harnessErrs) > 0 {
 		for _, e := range harnessErrs {
